@@ -888,7 +888,11 @@ func (fx *fx) loadGlobal(st *State, g *ssa.Global) Value {
 			v = fx.sym(name, T)
 		}
 		fx.globalVal[g] = v
-		// facts from the literal initialiser
+		// facts from the literal initialiser (ground facts: asserted even when the first use of the table is inside a
+		// quantifier body, where assumptions are otherwise suppressed)
+		savedQuiet := fx.enc.quiet
+		fx.enc.quiet = 0
+		defer func() { fx.enc.quiet = savedQuiet }()
 		if gf := fx.E.globalLit[g]; gf != nil {
 			switch v.Kind {
 			case KSlice:
